@@ -4,7 +4,7 @@
   function by the loop semantics), for all inputs.
 -/
 import Golib.Hash.GoBridgeHash
-import Golib.Hash.Murmur
+import Golib.Hash.MurmurProofs
 set_option linter.unusedVariables false
 set_option linter.unusedSimpArgs false
 namespace GoBridge
@@ -60,6 +60,9 @@ theorem bor_u32_cast (a b : Nat) : evalOp .bor .u32 (a : Int) (b : Int) = (((a %
 theorem shl_u32_cast (a : Nat) (k : Nat) : evalOp .shl .u32 (a : Int) (k : Int) = (((a <<< k) % 4294967296 : Nat) : Int) := by
   simp only [evalOp, Int.toNat_natCast, Nat.shiftLeft_eq]
   rw [← norm_u32_cast]; simp
+theorem lit_2 : (2 : Int) = ((2 : Nat) : Int) := rfl
+theorem xm1' (a b : Nat) (ha : a < 4294967296) : (a ^^^ b % 4294967296) % 4294967296 = a ^^^ b % 4294967296 :=
+  Nat.mod_eq_of_lt (Nat.xor_lt_two_pow (n := 32) ha (mod_lt32 b))
 theorem lit_255 : (255 : Int) = ((255 : Nat) : Int) := rfl
 theorem lit_8 : (8 : Int) = ((8 : Nat) : Int) := rfl
 theorem lit_24 : (24 : Int) = ((24 : Nat) : Int) := rfl
@@ -115,34 +118,468 @@ theorem murmur32_body_frame (A : Arrays) (ρ : Env) (x : Nat) (hx : x ≠ 8 ∧ 
   simp only [GoModel.loop_murmurHash.body, runEnv, upd, h8, h9, h4, if_false]
 
 /-- the blocks `k, k+1, …, k+n-1` folded by `step32` -/
-def blocksH (data : Bytes) : Nat → Nat → Nat → Nat
+def blocksG (f : Nat → Nat → Nat → Nat → Nat → Nat) (data : Bytes) : Nat → Nat → Nat → Nat
   | _, 0, h => h
-  | k, n + 1, h => blocksH data (k + 1) n
-      (Murmur.step32 h (data.getD (4 * k) 0) (data.getD (4 * k + 1) 0) (data.getD (4 * k + 2) 0) (data.getD (4 * k + 3) 0))
+  | k, n + 1, h => blocksG f data (k + 1) n
+      (f h (data.getD (4 * k) 0) (data.getD (4 * k + 1) 0) (data.getD (4 * k + 2) 0) (data.getD (4 * k + 3) 0))
+
+def blocksH (data : Bytes) : Nat → Nat → Nat → Nat := blocksG Murmur.step32 data
+
+theorem blocksH_succ (data : Bytes) (k n h : Nat) : blocksH data k (n + 1) h = blocksH data (k + 1) n
+    (Murmur.step32 h (data.getD (4 * k) 0) (data.getD (4 * k + 1) 0) (data.getD (4 * k + 2) 0) (data.getD (4 * k + 3) 0)) := by
+  unfold blocksH; rw [blocksG]
+
+theorem blocksG_lt_aux : True := trivial
 
 theorem step32_lt (h d0 d1 d2 d3 : Nat) : Murmur.step32 h d0 d1 d2 d3 < 4294967296 := by
   unfold Murmur.step32 Murmur.mixK32 Murmur.mul32
   exact Nat.xor_lt_two_pow (n := 32) (Nat.mod_lt _ (by decide)) (Nat.mod_lt _ (by decide))
 
+theorem blocksG_lt (data : Bytes) : ∀ (n k h : Nat), h < 4294967296 → blocksG Murmur.step32 data k n h < 4294967296 := by
+  intro n
+  induction n with
+  | zero => intro k h hh; rw [blocksG]; exact hh
+  | succ n ih => intro k h hh; rw [blocksG]; exact ih _ _ (step32_lt _ _ _ _ _)
+
 theorem murmur32_loop_bridge (body : List Stmt) (data : Bytes) (hw : WFB data)
     (hbody : ∀ ρ, runEnv (dataArrs data) ρ body 4 = runEnv (dataArrs data) ρ GoModel.loop_murmurHash.body 4)
-    (hframe : ∀ ρ x, x = 5 ∨ x = 6 → runEnv (dataArrs data) ρ body x = ρ x) :
+    (hframe : ∀ ρ x, x = 5 ∨ x = 6 ∨ x = 1 ∨ x = 7 → runEnv (dataArrs data) ρ body x = ρ x) :
     ∀ (n k : Nat) (ρ : Env) (h : Nat), ρ 4 = (h : Int) → ρ 5 = ((Murmur.m32 : Nat) : Int) → ρ 6 = 24 → h < 4294967296 →
       8 * (k + n) + 7 < 4611686018427387904 →
       forLoop (dataArrs data) body 3 n k ρ 4 = ((blocksH data k n h : Nat) : Int)
-      ∧ forLoop (dataArrs data) body 3 n k ρ 5 = ((Murmur.m32 : Nat) : Int) := by
+      ∧ forLoop (dataArrs data) body 3 n k ρ 5 = ((Murmur.m32 : Nat) : Int)
+      ∧ forLoop (dataArrs data) body 3 n k ρ 1 = ρ 1 ∧ forLoop (dataArrs data) body 3 n k ρ 7 = ρ 7 := by
   intro n
   induction n with
-  | zero => intro k ρ h h4 h5 h6 hh hk; exact ⟨h4, h5⟩
+  | zero => intro k ρ h h4 h5 h6 hh hk; exact ⟨h4, h5, rfl, rfl⟩
   | succ n ih =>
     intro k ρ h h4 h5 h6 hh hk
-    rw [forLoop, blocksH]
-    have u4 : upd ρ 3 (k : Int) 4 = (h : Int) := by simp [upd, h4]
-    have u5 : upd ρ 3 (k : Int) 5 = ((Murmur.m32 : Nat) : Int) := by simp [upd, h5]
-    have u6 : upd ρ 3 (k : Int) 6 = 24 := by simp [upd, h6]
-    have u3 : upd ρ 3 (k : Int) 3 = (k : Int) := by simp [upd]
+    have u4 : upd ρ 3 (k : Int) 4 = (h : Int) := by simp only [upd]; exact h4
+    have u5 : upd ρ 3 (k : Int) 5 = ((Murmur.m32 : Nat) : Int) := by simp only [upd]; exact h5
+    have u6 : upd ρ 3 (k : Int) 6 = 24 := by simp only [upd]; exact h6
+    have u3 : upd ρ 3 (k : Int) 3 = (k : Int) := by simp only [upd, if_true]
     have b := murmur32_body_bridge data hw (upd ρ 3 (k : Int)) k h u3 u4 u5 u6 hh (by omega)
-    exact ih (k + 1) _ _ (by rw [hbody]; exact b) (by rw [hframe _ 5 (Or.inl rfl)]; exact u5)
-      (by rw [hframe _ 6 (Or.inr rfl)]; exact u6) (step32_lt _ _ _ _ _) (by omega)
+    have r := ih (k + 1) (runEnv (dataArrs data) (upd ρ 3 (k : Int)) body)
+      (Murmur.step32 h (data.getD (4 * k) 0) (data.getD (4 * k + 1) 0) (data.getD (4 * k + 2) 0) (data.getD (4 * k + 3) 0))
+      (by rw [hbody]; exact b) (by rw [hframe _ 5 (Or.inl rfl)]; exact u5)
+      (by rw [hframe _ 6 (Or.inr (Or.inl rfl))]; exact u6) (step32_lt _ _ _ _ _) (by omega)
+    rw [forLoop, blocksH_succ]
+    refine ⟨r.1, r.2.1, ?_, ?_⟩
+    · rw [r.2.2.1, hframe _ 1 (Or.inr (Or.inr (Or.inl rfl)))]; simp only [upd]; rfl
+    · rw [r.2.2.2, hframe _ 7 (Or.inr (Or.inr (Or.inr rfl)))]; simp only [upd]; rfl
+
+theorem drop4 (data : Bytes) (k : Nat) (h : 4 * k + 3 < data.length) :
+    data.drop (4 * k) = data.getD (4 * k) 0 :: data.getD (4 * k + 1) 0 :: data.getD (4 * k + 2) 0
+      :: data.getD (4 * k + 3) 0 :: data.drop (4 * (k + 1)) := by
+  rw [drop_cons_getD data (4 * k) (by omega), drop_cons_getD data (4 * k + 1) (by omega),
+      drop_cons_getD data (4 * k + 2) (by omega), drop_cons_getD data (4 * k + 3) (by omega)]
+  rfl
+
+/-- the indexed loop of the Go code and the list walk of the CodeModel visit the same blocks -/
+theorem walk4_blocksH (data : Bytes) : ∀ (n k h : Nat), 4 * (k + n) ≤ data.length → data.length < 4 * (k + n) + 4 →
+    Murmur.walk4 Murmur.step32 (data.drop (4 * k)) h = (blocksH data k n h, data.drop (4 * (k + n))) := by
+  intro n
+  induction n with
+  | zero =>
+    intro k h h1 h2
+    rw [Murmur.walk4_short _ _ _ (by rw [List.length_drop]; omega)]
+    rfl
+  | succ n ih =>
+    intro k h h1 h2
+    rw [drop4 data k (by omega), Murmur.walk4_cons, blocksH_succ, ih (k + 1) _ (by omega) (by omega)]
+    have : k + 1 + n = k + (n + 1) := by omega
+    rw [this]
+
+/-! #### prelude and tail -/
+
+theorem murmur32_pre_bridge (A : Arrays) (ρ : Env) (len seed : Nat) (h1 : ρ 1 = (len : Int)) (h2 : ρ 2 = (seed : Int))
+    (hl : len < 2147483648) (hs : seed < 4294967296) :
+    let ρ' := runEnv A ρ GoModel.loop_murmurHash.pre
+    ρ' 4 = ((seed ^^^ len % 4294967296 : Nat) : Int) ∧ ρ' 5 = ((Murmur.m32 : Nat) : Int) ∧ ρ' 6 = 24
+    ∧ ρ' 7 = ((len / 4 : Nat) : Int) ∧ ρ' 1 = (len : Int) := by
+  simp only [GoModel.loop_murmurHash.pre, runEnv, eval, upd, h1, h2, if_true, Nat.reduceEqDiff, if_false]
+  refine ⟨?_, rfl, trivial, ?_, trivial⟩
+  · simp only [norm_u32_cast, bxor_u32_cast]
+    apply congrArg (fun n : Nat => (n : Int))
+    rw [Nat.mod_mod, Nat.mod_eq_of_lt hs, xm1' _ _ hs]
+  · simp only [norm_u32_cast, lit_2, shr_u32_cast, Int.toNat_natCast]
+    apply congrArg (fun n : Nat => (n : Int))
+    rw [Nat.mod_eq_of_lt (by omega), Nat.shiftRight_eq_div_pow]
+
+theorem idx_sub_i32 (len : Nat) (j : Int) (hj : 0 ≤ j ∧ j ≤ (len : Int)) (hl : len < 2147483648) :
+    (evalOp .sub .i32 (len : Int) j).toNat = len - j.toNat := by
+  simp only [evalOp, norm, Ty.half, Ty.modulus]; omega
+
+theorem dataArrs_getD (data : Bytes) (k : Nat) : (dataArrs data 0).getD k 0 = ((data.getD k 0 : Nat) : Int) := by
+  simp only [dataArrs, if_true, bytes_getD]
+
+theorem drop_tail0 (data : Bytes) (n : Nat) (h : data.length ≤ n) : data.drop n = [] := List.drop_eq_nil_of_le h
+theorem drop_tail1 (data : Bytes) (n : Nat) (h : n + 1 = data.length) : data.drop n = [data.getD n 0] := by
+  rw [drop_cons_getD data n (by omega), drop_tail0 data (n + 1) (by omega)]
+theorem drop_tail2 (data : Bytes) (n : Nat) (h : n + 2 = data.length) :
+    data.drop n = [data.getD n 0, data.getD (n + 1) 0] := by
+  rw [drop_cons_getD data n (by omega), drop_tail1 data (n + 1) (by omega)]
+theorem drop_tail3 (data : Bytes) (n : Nat) (h : n + 3 = data.length) :
+    data.drop n = [data.getD n 0, data.getD (n + 1) 0, data.getD (n + 2) 0] := by
+  rw [drop_cons_getD data n (by omega), drop_tail2 data (n + 1) (by omega)]
+
+theorem lit_16 : (16 : Int) = ((16 : Nat) : Int) := rfl
+theorem lit_13 : (13 : Int) = ((13 : Nat) : Int) := rfl
+theorem lit_15 : (15 : Int) = ((15 : Nat) : Int) := rfl
+
+theorem sm3 (a k : Nat) : (a % 4294967296 * Murmur.m32 % 4294967296) >>> k % 4294967296 = (a % 4294967296 * Murmur.m32 % 4294967296) >>> k :=
+  sm1 _ _
+
+theorem xm3 (a b c : Nat) : (a % 4294967296 ^^^ b % 4294967296 ^^^ c % 4294967296) % 4294967296
+    = a % 4294967296 ^^^ b % 4294967296 ^^^ c % 4294967296 :=
+  Nat.mod_eq_of_lt (Nat.xor_lt_two_pow (n := 32) (Nat.xor_lt_two_pow (n := 32) (mod_lt32 a) (mod_lt32 b)) (mod_lt32 c))
+
+/-- natify + normalise the tail/avalanche arithmetic -/
+macro "murmur_norm" : tactic => `(tactic| (
+  simp only [lit_8, lit_16, lit_13, lit_15, norm_u32_cast, shl_u32_cast, mul_u32_cast, bxor_u32_cast, shr_u32_cast,
+    Int.toNat_natCast]
+  apply congrArg (fun n : Nat => some (n : Int))
+  simp only [Nat.mod_mod, xm3, xm1, xm2, sm1, sm2, Nat.reduceMod, Nat.mod_mul_mod]))
+
+theorem murmur32_after_bridge (data : Bytes) (hw : WFB data) (ρ : Env) (h : Nat)
+    (h1 : ρ 1 = (data.length : Int)) (h4 : ρ 4 = (h : Int)) (h5 : ρ 5 = ((Murmur.m32 : Nat) : Int))
+    (h7 : ρ 7 = ((data.length / 4 : Nat) : Int)) (hh : h < 4294967296) (hl : data.length < 2147483648) :
+    runRet (dataArrs data) ρ GoModel.loop_murmurHash.after
+      = some ((Murmur.fin32 (Murmur.tail32 (data.drop (data.length / 4 * 4)) h) : Nat) : Int) := by
+  obtain ⟨h', rfl⟩ : ∃ h', h = h' % 4294967296 := ⟨h, (Nat.mod_eq_of_lt hh).symm⟩
+  generalize hlen : data.length = len at *
+  have e10 : evalOp .shl .u32 ((len / 4 : Nat) : Int) 2 = ((len / 4 * 4 : Nat) : Int) := by
+    rw [lit_2, shl_u32_cast]
+    apply congrArg (fun n : Nat => (n : Int))
+    rw [Nat.shiftLeft_eq]; omega
+  have hr : len % 4 = 0 ∨ len % 4 = 1 ∨ len % 4 = 2 ∨ len % 4 = 3 := by omega
+  have bnd (k : Nat) := getD_lt data hw k
+  rcases hr with hr | hr | hr | hr
+  · have e11 : evalOp .sub .u32 (norm .u32 (len : Int)) ((len / 4 * 4 : Nat) : Int) = 0 := by
+      simp only [evalOp, norm, Ty.half, Ty.modulus]; omega
+    simp only [GoModel.loop_murmurHash.after, runRet, eval, evalC, upd, h1, h4, h5, h7, if_true, Nat.reduceEqDiff, if_false,
+      e10, e11, eqb, leb, Int.reduceEq, Int.reduceLE, decide_true, decide_false, Bool.not_true, Bool.not_false,
+      Bool.and_true, Bool.and_false, Bool.true_and, Bool.false_and, cond_true, cond_false]
+    rw [drop_tail0 data (len / 4 * 4) (by omega)]
+    murmur_norm
+    simp only [Murmur.fin32, Murmur.tail32, Murmur.mul32, Murmur.shl32, Nat.mod_mod, xm1, xm2, sm1, sm2, Nat.mod_mul_mod]
+  · have e11 : evalOp .sub .u32 (norm .u32 (len : Int)) ((len / 4 * 4 : Nat) : Int) = 1 := by
+      simp only [evalOp, norm, Ty.half, Ty.modulus]; omega
+    simp only [GoModel.loop_murmurHash.after, runRet, eval, evalC, upd, h1, h4, h5, h7, if_true, Nat.reduceEqDiff, if_false,
+      e10, e11, eqb, leb, Int.reduceEq, Int.reduceLE, decide_true, decide_false, Bool.not_true, Bool.not_false,
+      Bool.and_true, Bool.and_false, Bool.true_and, Bool.false_and, cond_true, cond_false]
+    rw [drop_tail1 data (len / 4 * 4) (by omega)]
+    rw [idx_sub_i32 len 1 (by omega) hl, dataArrs_getD]
+    simp only [Int.reduceToNat]
+    have e : len - 1 = len / 4 * 4 := by omega
+    rw [e]
+    have b0 := bnd (len / 4 * 4)
+    generalize data.getD (len / 4 * 4) 0 = x at b0
+    murmur_norm
+    have ex : x % 4294967296 = x := Nat.mod_eq_of_lt (by omega)
+    simp only [ex]
+    simp only [Murmur.fin32, Murmur.tail32, Murmur.mul32, Murmur.shl32, Nat.mod_mod, xm1, xm2, sm1, sm2, Nat.mod_mul_mod]
+  · have e11 : evalOp .sub .u32 (norm .u32 (len : Int)) ((len / 4 * 4 : Nat) : Int) = 2 := by
+      simp only [evalOp, norm, Ty.half, Ty.modulus]; omega
+    simp only [GoModel.loop_murmurHash.after, runRet, eval, evalC, upd, h1, h4, h5, h7, if_true, Nat.reduceEqDiff, if_false,
+      e10, e11, eqb, leb, Int.reduceEq, Int.reduceLE, decide_true, decide_false, Bool.not_true, Bool.not_false,
+      Bool.and_true, Bool.and_false, Bool.true_and, Bool.false_and, cond_true, cond_false]
+    rw [drop_tail2 data (len / 4 * 4) (by omega)]
+    rw [idx_sub_i32 len 1 (by omega) hl, idx_sub_i32 len 2 (by omega) hl, dataArrs_getD, dataArrs_getD]
+    simp only [Int.reduceToNat]
+    have e1 : len - 1 = len / 4 * 4 + 1 := by omega
+    have e2 : len - 2 = len / 4 * 4 := by omega
+    rw [e1, e2]
+    have b0 := bnd (len / 4 * 4)
+    have b1 := bnd (len / 4 * 4 + 1)
+    generalize data.getD (len / 4 * 4) 0 = x at b0
+    generalize data.getD (len / 4 * 4 + 1) 0 = y at b1
+    murmur_norm
+    have ex : x % 4294967296 = x := Nat.mod_eq_of_lt (by omega)
+    have ey : y % 4294967296 = y := Nat.mod_eq_of_lt (by omega)
+    simp only [ex, ey]
+    simp only [Murmur.fin32, Murmur.tail32, Murmur.mul32, Murmur.shl32, Nat.mod_mod, xm1, xm2, sm1, sm2, Nat.mod_mul_mod]
+  · have e11 : evalOp .sub .u32 (norm .u32 (len : Int)) ((len / 4 * 4 : Nat) : Int) = 3 := by
+      simp only [evalOp, norm, Ty.half, Ty.modulus]; omega
+    simp only [GoModel.loop_murmurHash.after, runRet, eval, evalC, upd, h1, h4, h5, h7, if_true, Nat.reduceEqDiff, if_false,
+      e10, e11, eqb, leb, Int.reduceEq, Int.reduceLE, decide_true, decide_false, Bool.not_true, Bool.not_false,
+      Bool.and_true, Bool.and_false, Bool.true_and, Bool.false_and, cond_true, cond_false]
+    rw [drop_tail3 data (len / 4 * 4) (by omega)]
+    rw [idx_sub_i32 len 1 (by omega) hl, idx_sub_i32 len 2 (by omega) hl, idx_sub_i32 len 3 (by omega) hl,
+      dataArrs_getD, dataArrs_getD, dataArrs_getD]
+    simp only [Int.reduceToNat]
+    have e1 : len - 1 = len / 4 * 4 + 2 := by omega
+    have e2 : len - 2 = len / 4 * 4 + 1 := by omega
+    have e3 : len - 3 = len / 4 * 4 := by omega
+    rw [e1, e2, e3]
+    have b0 := bnd (len / 4 * 4)
+    have b1 := bnd (len / 4 * 4 + 1)
+    have b2 := bnd (len / 4 * 4 + 2)
+    generalize data.getD (len / 4 * 4) 0 = x at b0
+    generalize data.getD (len / 4 * 4 + 1) 0 = y at b1
+    generalize data.getD (len / 4 * 4 + 2) 0 = z at b2
+    murmur_norm
+    have ex : x % 4294967296 = x := Nat.mod_eq_of_lt (by omega)
+    have ey : y % 4294967296 = y := Nat.mod_eq_of_lt (by omega)
+    have ez : z % 4294967296 = z := Nat.mod_eq_of_lt (by omega)
+    simp only [ex, ey, ez]
+    simp only [Murmur.fin32, Murmur.tail32, Murmur.mul32, Murmur.shl32, Nat.mod_mod, xm1, xm2, sm1, sm2, Nat.mod_mul_mod]
+
+/-- **`murmurHash(data, len(data), seed)` as transcribed = `Murmur.murmur32 data seed`**, for every byte
+    string shorter than 2^31 and every seed: prelude, `len/4` runs of the loop body, tail and avalanche.
+    Identifier numbers: data 0, length 1, seed 2, i 3, h 4, m 5, r 6, len_4 7. -/
+theorem murmur32_fn_bridge (pre body after : List Stmt)
+    (hpre : sameVars [4, 5, 6, 7, 1] pre GoModel.loop_murmurHash.pre = true)
+    (hb4 : canonVar 4 body = canonVar 4 GoModel.loop_murmurHash.body)
+    (hb5 : canonVar 5 body = canonVar 5 GoModel.loop_murmurHash.body)
+    (hb6 : canonVar 6 body = canonVar 6 GoModel.loop_murmurHash.body)
+    (hb1 : canonVar 1 body = canonVar 1 GoModel.loop_murmurHash.body)
+    (hb7 : canonVar 7 body = canonVar 7 GoModel.loop_murmurHash.body)
+    (hafter : normStmts after = normStmts GoModel.loop_murmurHash.after)
+    (data : Bytes) (hw : WFB data) (seed : Nat) (hs : seed < 4294967296) (hl : data.length < 2147483648)
+    (ρ : Env) (h1 : ρ 1 = (data.length : Int)) (h2 : ρ 2 = (seed : Int)) :
+    callLoop (dataArrs data) pre body after 3 (data.length / 4) ρ = ((Murmur.murmur32 data seed : Nat) : Int) := by
+  have A := dataArrs data
+  have hB : ∀ ρ, runEnv (dataArrs data) ρ body 4 = runEnv (dataArrs data) ρ GoModel.loop_murmurHash.body 4 :=
+    fun ρ => canonVar_eq hb4 (by decide +kernel) _ ρ
+  have hF : ∀ ρ x, x = 5 ∨ x = 6 ∨ x = 1 ∨ x = 7 → runEnv (dataArrs data) ρ body x = ρ x := by
+    intro ρ x hx
+    rcases hx with rfl | rfl | rfl | rfl
+    · exact (canonVar_eq hb5 (by decide +kernel) _ ρ).trans (murmur32_body_frame _ ρ 5 (by decide))
+    · exact (canonVar_eq hb6 (by decide +kernel) _ ρ).trans (murmur32_body_frame _ ρ 6 (by decide))
+    · exact (canonVar_eq hb1 (by decide +kernel) _ ρ).trans (murmur32_body_frame _ ρ 1 (by decide))
+    · exact (canonVar_eq hb7 (by decide +kernel) _ ρ).trans (murmur32_body_frame _ ρ 7 (by decide))
+  have ⟨p4, p5, p6, p7, p1⟩ := murmur32_pre_bridge (dataArrs data) ρ data.length seed h1 h2 hl hs
+  have hxor : seed ^^^ data.length % 4294967296 < 4294967296 :=
+    Nat.xor_lt_two_pow (n := 32) hs (Nat.mod_lt _ (by decide))
+  have sv := fun x hx => sameVars_eq hpre (dataArrs data) ρ x hx
+  have ⟨l4, l5, l1, l7⟩ := murmur32_loop_bridge body data hw hB hF (data.length / 4) 0
+    (runEnv (dataArrs data) ρ pre) _ (by rw [sv 4 (by simp)]; exact p4) (by rw [sv 5 (by simp)]; exact p5)
+    (by rw [sv 6 (by simp)]; exact p6) hxor (by omega)
+  unfold callLoop
+  rw [(normStmts_eq hafter _ _).2]
+  rw [murmur32_after_bridge data hw _ _ (by rw [l1, sv 1 (by simp)]; exact p1) l4 l5 (by rw [l7, sv 7 (by simp)]; exact p7)
+    (by unfold blocksH; exact blocksG_lt data _ _ _ hxor) hl, retVal_some]
+  apply congrArg (fun n : Nat => (n : Int))
+  have hw4 := walk4_blocksH data (data.length / 4) 0 (seed ^^^ data.length % 4294967296) (by omega) (by omega)
+  simp only [Nat.mul_zero, List.drop_zero, Nat.zero_add] at hw4
+  unfold Murmur.murmur32 Murmur.blocks32
+  simp only [hw4]
+  rw [Nat.mul_comm]
+
+/-! ### murmurHashLong (64 bit) -/
+
+theorem band_u64_cast (a b : Nat) : evalOp .band .u64 (a : Int) (b : Int) = (((a % 18446744073709551616 &&& b % 18446744073709551616) % 18446744073709551616 : Nat) : Int) := by
+  simp only [evalOp, bitsOp, pat_u64, norm_u64_cast]
+theorem bxor_u64_cast (a b : Nat) : evalOp .bxor .u64 (a : Int) (b : Int) = (((a % 18446744073709551616 ^^^ b % 18446744073709551616) % 18446744073709551616 : Nat) : Int) := by
+  simp only [evalOp, bitsOp, pat_u64, norm_u64_cast]
+theorem shl_u64_cast (a : Nat) (k : Nat) : evalOp .shl .u64 (a : Int) (k : Int) = (((a <<< k) % 18446744073709551616 : Nat) : Int) := by
+  simp only [evalOp, Int.toNat_natCast, Nat.shiftLeft_eq]
+  rw [← norm_u64_cast]; simp
+theorem add_u64_cast (a b : Nat) : evalOp .add .u64 (a : Int) (b : Int) = (((a + b) % 18446744073709551616 : Nat) : Int) := by
+  simp only [evalOp]; rw [← norm_u64_cast]; simp
+theorem lit_m64 : (14313749767032793493 : Int) = ((14313749767032793493 : Nat) : Int) := rfl
+theorem lit_47 : (47 : Int) = ((47 : Nat) : Int) := rfl
+theorem lit_32 : (32 : Int) = ((32 : Nat) : Int) := rfl
+theorem lit_40 : (40 : Int) = ((40 : Nat) : Int) := rfl
+theorem lit_48 : (48 : Int) = ((48 : Nat) : Int) := rfl
+theorem lit_56 : (56 : Int) = ((56 : Nat) : Int) := rfl
+
+theorem mod_lt64 (a : Nat) : a % 18446744073709551616 < 18446744073709551616 := Nat.mod_lt _ (by decide)
+theorem xm1_64 (a b : Nat) : (a % 18446744073709551616 ^^^ b % 18446744073709551616) % 18446744073709551616 = a % 18446744073709551616 ^^^ b % 18446744073709551616 :=
+  Nat.mod_eq_of_lt (Nat.xor_lt_two_pow (n := 64) (mod_lt64 a) (mod_lt64 b))
+theorem shr_lt64 (a k : Nat) : (a % 18446744073709551616) >>> k < 18446744073709551616 :=
+  Nat.lt_of_le_of_lt (Nat.shiftRight_le _ _) (mod_lt64 a)
+theorem xm2_64 (a b k : Nat) : (a % 18446744073709551616 ^^^ (b % 18446744073709551616) >>> k) % 18446744073709551616 = a % 18446744073709551616 ^^^ (b % 18446744073709551616) >>> k :=
+  Nat.mod_eq_of_lt (Nat.xor_lt_two_pow (n := 64) (mod_lt64 a) (shr_lt64 b k))
+theorem sm1_64 (a k : Nat) : (a % 18446744073709551616) >>> k % 18446744073709551616 = (a % 18446744073709551616) >>> k := Nat.mod_eq_of_lt (shr_lt64 a k)
+theorem sm2_64 (a b k : Nat) : (a % 18446744073709551616 ^^^ b % 18446744073709551616) >>> k % 18446744073709551616 = (a % 18446744073709551616 ^^^ b % 18446744073709551616) >>> k :=
+  Nat.mod_eq_of_lt (Nat.lt_of_le_of_lt (Nat.shiftRight_le _ _) (Nat.xor_lt_two_pow (n := 64) (mod_lt64 a) (mod_lt64 b)))
+
+theorem shl255 (d k : Nat) (hk : k ≤ 56) : (d &&& 255) <<< k % 18446744073709551616 = (d &&& 255) <<< k := by
+  apply Nat.mod_eq_of_lt
+  rw [Nat.shiftLeft_eq]
+  have h1 : d &&& 255 < 256 := Nat.and_lt_two_pow d (by decide : 255 < 2 ^ 8)
+  have h2 : 2 ^ k ≤ 2 ^ 56 := Nat.pow_le_pow_right (by decide) hk
+  calc (d &&& 255) * 2 ^ k ≤ 255 * 2 ^ 56 := Nat.mul_le_mul (by omega) h2
+    _ < 18446744073709551616 := by decide
+
+theorem idx8_i64 (i : Nat) (j : Int) (hj : 0 ≤ j ∧ j ≤ 7) (hi : 8 * i + 7 < 4611686018427387904) :
+    (evalOp .add .i64 (evalOp .mul .i64 (i : Int) 8) j).toNat = 8 * i + j.toNat := by
+  simp only [evalOp, norm, Ty.half, Ty.modulus]; omega
+
+theorem murmur64_body_bridge (data : Bytes) (hw : WFB data) (ρ : Env) (i h : Nat) (h3 : ρ 3 = (i : Int))
+    (h4 : ρ 4 = (h : Int)) (h5 : ρ 5 = ((Murmur.m64 : Nat) : Int)) (h6 : ρ 6 = 47) (hh : h < 18446744073709551616)
+    (hi : 8 * i + 7 < 4611686018427387904) :
+    runEnv (dataArrs data) ρ GoModel.loop_murmurHashLong.body 4
+      = ((Murmur.step64 h (data.getD (8 * i) 0) (data.getD (8 * i + 1) 0) (data.getD (8 * i + 2) 0)
+          (data.getD (8 * i + 3) 0) (data.getD (8 * i + 4) 0) (data.getD (8 * i + 5) 0) (data.getD (8 * i + 6) 0)
+          (data.getD (8 * i + 7) 0) : Nat) : Int) := by
+  simp only [GoModel.loop_murmurHashLong.body, runEnv, eval, upd, dataArrs]
+  simp only [if_true, Nat.reduceEqDiff, if_false, h3, h4, h5, h6]
+  have j0 := idx8_i64 i 0 (by omega) hi
+  have j1 := idx8_i64 i 1 (by omega) hi
+  have j2 := idx8_i64 i 2 (by omega) hi
+  have j3 := idx8_i64 i 3 (by omega) hi
+  have j4 := idx8_i64 i 4 (by omega) hi
+  have j5 := idx8_i64 i 5 (by omega) hi
+  have j6 := idx8_i64 i 6 (by omega) hi
+  have j7 := idx8_i64 i 7 (by omega) hi
+  simp only [Int.reduceToNat, Nat.add_zero] at j0 j1 j2 j3 j4 j5 j6 j7
+  simp only [j0, j1, j2, j3, j4, j5, j6, j7, bytes_getD]
+  have b0 := getD_lt data hw (8 * i)
+  have b1 := getD_lt data hw (8 * i + 1)
+  have b2 := getD_lt data hw (8 * i + 2)
+  have b3 := getD_lt data hw (8 * i + 3)
+  have b4 := getD_lt data hw (8 * i + 4)
+  have b5 := getD_lt data hw (8 * i + 5)
+  have b6 := getD_lt data hw (8 * i + 6)
+  have b7 := getD_lt data hw (8 * i + 7)
+  generalize data.getD (8 * i) 0 = d0 at b0
+  generalize data.getD (8 * i + 1) 0 = d1 at b1
+  generalize data.getD (8 * i + 2) 0 = d2 at b2
+  generalize data.getD (8 * i + 3) 0 = d3 at b3
+  generalize data.getD (8 * i + 4) 0 = d4 at b4
+  generalize data.getD (8 * i + 5) 0 = d5 at b5
+  generalize data.getD (8 * i + 6) 0 = d6 at b6
+  generalize data.getD (8 * i + 7) 0 = d7 at b7
+  simp only [lit_255, lit_8, lit_16, lit_24, lit_32, lit_40, lit_48, lit_56, lit_47, norm_u64_cast, shl_u64_cast, band_u64_cast,
+    add_u64_cast, mul_u64_cast, bxor_u64_cast, shr_u64_cast, Int.toNat_natCast]
+  apply congrArg (fun n : Nat => (n : Int))
+  have e0 : d0 % 18446744073709551616 = d0 := Nat.mod_eq_of_lt (by omega)
+  have e1 : d1 % 18446744073709551616 = d1 := Nat.mod_eq_of_lt (by omega)
+  have e2 : d2 % 18446744073709551616 = d2 := Nat.mod_eq_of_lt (by omega)
+  have e3 : d3 % 18446744073709551616 = d3 := Nat.mod_eq_of_lt (by omega)
+  have e4 : d4 % 18446744073709551616 = d4 := Nat.mod_eq_of_lt (by omega)
+  have e5 : d5 % 18446744073709551616 = d5 := Nat.mod_eq_of_lt (by omega)
+  have e6 : d6 % 18446744073709551616 = d6 := Nat.mod_eq_of_lt (by omega)
+  have e7 : d7 % 18446744073709551616 = d7 := Nat.mod_eq_of_lt (by omega)
+  have a255 (d : Nat) : (d &&& 255) % 18446744073709551616 = d &&& 255 :=
+    Nat.mod_eq_of_lt (Nat.lt_of_lt_of_le (Nat.and_lt_two_pow d (by decide : 255 < 2 ^ 8)) (by decide))
+  obtain ⟨h', rfl⟩ : ∃ h', h = h' % 18446744073709551616 := ⟨h, (Nat.mod_eq_of_lt hh).symm⟩
+  simp only [e0, e1, e2, e3, e4, e5, e6, e7, Nat.reduceMod, a255, Nat.mod_mod, Nat.mod_add_mod, Nat.add_mod_mod,
+    xm1_64, xm2_64, sm1_64, sm2_64, Nat.mod_mul_mod]
+  simp only [Murmur.step64, Murmur.mixK64, Murmur.loadK64, Murmur.mul64, Murmur.shl64, Nat.mod_mod, Nat.mod_add_mod,
+    Nat.add_mod_mod, xm1_64, xm2_64, sm1_64, sm2_64, Nat.mod_mul_mod]
+  simp only [shl255 _ 8 (by decide), shl255 _ 16 (by decide), shl255 _ 24 (by decide), shl255 _ 32 (by decide),
+    shl255 _ 40 (by decide), shl255 _ 48 (by decide)]
+
+theorem band_u8_cast (a b : Nat) : evalOp .band .u8 (a : Int) (b : Int) = (((a % 256 &&& b % 256) % 256 : Nat) : Int) := by
+  simp only [evalOp, bitsOp, pat_u8, norm_u8_cast]
+
+theorem xm3_64 (a b c : Nat) : (a % 18446744073709551616 ^^^ b % 18446744073709551616 ^^^ c % 18446744073709551616) % 18446744073709551616 = a % 18446744073709551616 ^^^ b % 18446744073709551616 ^^^ c % 18446744073709551616 :=
+  Nat.mod_eq_of_lt (Nat.xor_lt_two_pow (n := 64) (Nat.xor_lt_two_pow (n := 64) (mod_lt64 a) (mod_lt64 b)) (mod_lt64 c))
+
+theorem xm4_64 (a b c d : Nat) : (a % 18446744073709551616 ^^^ b % 18446744073709551616 ^^^ c % 18446744073709551616 ^^^ d % 18446744073709551616) % 18446744073709551616 = a % 18446744073709551616 ^^^ b % 18446744073709551616 ^^^ c % 18446744073709551616 ^^^ d % 18446744073709551616 :=
+  Nat.mod_eq_of_lt (Nat.xor_lt_two_pow (n := 64) (Nat.xor_lt_two_pow (n := 64) (Nat.xor_lt_two_pow (n := 64) (mod_lt64 a) (mod_lt64 b)) (mod_lt64 c)) (mod_lt64 d))
+
+theorem xm5_64 (a b c d e : Nat) : (a % 18446744073709551616 ^^^ b % 18446744073709551616 ^^^ c % 18446744073709551616 ^^^ d % 18446744073709551616 ^^^ e % 18446744073709551616) % 18446744073709551616 = a % 18446744073709551616 ^^^ b % 18446744073709551616 ^^^ c % 18446744073709551616 ^^^ d % 18446744073709551616 ^^^ e % 18446744073709551616 :=
+  Nat.mod_eq_of_lt (Nat.xor_lt_two_pow (n := 64) (Nat.xor_lt_two_pow (n := 64) (Nat.xor_lt_two_pow (n := 64) (Nat.xor_lt_two_pow (n := 64) (mod_lt64 a) (mod_lt64 b)) (mod_lt64 c)) (mod_lt64 d)) (mod_lt64 e))
+
+theorem xm6_64 (a b c d e f : Nat) : (a % 18446744073709551616 ^^^ b % 18446744073709551616 ^^^ c % 18446744073709551616 ^^^ d % 18446744073709551616 ^^^ e % 18446744073709551616 ^^^ f % 18446744073709551616) % 18446744073709551616 = a % 18446744073709551616 ^^^ b % 18446744073709551616 ^^^ c % 18446744073709551616 ^^^ d % 18446744073709551616 ^^^ e % 18446744073709551616 ^^^ f % 18446744073709551616 :=
+  Nat.mod_eq_of_lt (Nat.xor_lt_two_pow (n := 64) (Nat.xor_lt_two_pow (n := 64) (Nat.xor_lt_two_pow (n := 64) (Nat.xor_lt_two_pow (n := 64) (Nat.xor_lt_two_pow (n := 64) (mod_lt64 a) (mod_lt64 b)) (mod_lt64 c)) (mod_lt64 d)) (mod_lt64 e)) (mod_lt64 f))
+
+theorem xm7_64 (a b c d e f g : Nat) : (a % 18446744073709551616 ^^^ b % 18446744073709551616 ^^^ c % 18446744073709551616 ^^^ d % 18446744073709551616 ^^^ e % 18446744073709551616 ^^^ f % 18446744073709551616 ^^^ g % 18446744073709551616) % 18446744073709551616 = a % 18446744073709551616 ^^^ b % 18446744073709551616 ^^^ c % 18446744073709551616 ^^^ d % 18446744073709551616 ^^^ e % 18446744073709551616 ^^^ f % 18446744073709551616 ^^^ g % 18446744073709551616 :=
+  Nat.mod_eq_of_lt (Nat.xor_lt_two_pow (n := 64) (Nat.xor_lt_two_pow (n := 64) (Nat.xor_lt_two_pow (n := 64) (Nat.xor_lt_two_pow (n := 64) (Nat.xor_lt_two_pow (n := 64) (Nat.xor_lt_two_pow (n := 64) (mod_lt64 a) (mod_lt64 b)) (mod_lt64 c)) (mod_lt64 d)) (mod_lt64 e)) (mod_lt64 f)) (mod_lt64 g))
+
+theorem xm8_64 (a b c d e f g h : Nat) : (a % 18446744073709551616 ^^^ b % 18446744073709551616 ^^^ c % 18446744073709551616 ^^^ d % 18446744073709551616 ^^^ e % 18446744073709551616 ^^^ f % 18446744073709551616 ^^^ g % 18446744073709551616 ^^^ h % 18446744073709551616) % 18446744073709551616 = a % 18446744073709551616 ^^^ b % 18446744073709551616 ^^^ c % 18446744073709551616 ^^^ d % 18446744073709551616 ^^^ e % 18446744073709551616 ^^^ f % 18446744073709551616 ^^^ g % 18446744073709551616 ^^^ h % 18446744073709551616 :=
+  Nat.mod_eq_of_lt (Nat.xor_lt_two_pow (n := 64) (Nat.xor_lt_two_pow (n := 64) (Nat.xor_lt_two_pow (n := 64) (Nat.xor_lt_two_pow (n := 64) (Nat.xor_lt_two_pow (n := 64) (Nat.xor_lt_two_pow (n := 64) (Nat.xor_lt_two_pow (n := 64) (mod_lt64 a) (mod_lt64 b)) (mod_lt64 c)) (mod_lt64 d)) (mod_lt64 e)) (mod_lt64 f)) (mod_lt64 g)) (mod_lt64 h))
+
+theorem drop_tail4 (data : Bytes) (n : Nat) (h : n + 4 = data.length) :
+    data.drop n = [data.getD n 0, data.getD (n + 1) 0, data.getD (n + 2) 0, data.getD (n + 3) 0] := by
+  rw [drop_cons_getD data n (by omega), drop_tail3 data (n + 1) (by omega)]
+
+theorem drop_tail5 (data : Bytes) (n : Nat) (h : n + 5 = data.length) :
+    data.drop n = [data.getD n 0, data.getD (n + 1) 0, data.getD (n + 2) 0, data.getD (n + 3) 0, data.getD (n + 4) 0] := by
+  rw [drop_cons_getD data n (by omega), drop_tail4 data (n + 1) (by omega)]
+
+theorem drop_tail6 (data : Bytes) (n : Nat) (h : n + 6 = data.length) :
+    data.drop n = [data.getD n 0, data.getD (n + 1) 0, data.getD (n + 2) 0, data.getD (n + 3) 0, data.getD (n + 4) 0, data.getD (n + 5) 0] := by
+  rw [drop_cons_getD data n (by omega), drop_tail5 data (n + 1) (by omega)]
+
+theorem drop_tail7 (data : Bytes) (n : Nat) (h : n + 7 = data.length) :
+    data.drop n = [data.getD n 0, data.getD (n + 1) 0, data.getD (n + 2) 0, data.getD (n + 3) 0, data.getD (n + 4) 0, data.getD (n + 5) 0, data.getD (n + 6) 0] := by
+  rw [drop_cons_getD data n (by omega), drop_tail6 data (n + 1) (by omega)]
+
+theorem murmur64_body_frame (A : Arrays) (ρ : Env) (x : Nat) (hx : x ≠ 8 ∧ x ≠ 9 ∧ x ≠ 4) :
+    runEnv A ρ GoModel.loop_murmurHashLong.body x = ρ x := by
+  obtain ⟨h8, h9, h4⟩ := hx
+  simp only [GoModel.loop_murmurHashLong.body, runEnv, upd, h8, h9, h4, if_false]
+
+def blocksG8 (f : Nat → Nat → Nat → Nat → Nat → Nat → Nat → Nat → Nat → Nat) (data : Bytes) : Nat → Nat → Nat → Nat
+  | _, 0, h => h
+  | k, n + 1, h => blocksG8 f data (k + 1) n
+      (f h (data.getD (8 * k) 0) (data.getD (8 * k + 1) 0) (data.getD (8 * k + 2) 0) (data.getD (8 * k + 3) 0)
+        (data.getD (8 * k + 4) 0) (data.getD (8 * k + 5) 0) (data.getD (8 * k + 6) 0) (data.getD (8 * k + 7) 0))
+
+def blocksH8 (data : Bytes) : Nat → Nat → Nat → Nat := blocksG8 Murmur.step64 data
+
+theorem blocksH8_succ (data : Bytes) (k n h : Nat) : blocksH8 data k (n + 1) h = blocksH8 data (k + 1) n
+    (Murmur.step64 h (data.getD (8 * k) 0) (data.getD (8 * k + 1) 0) (data.getD (8 * k + 2) 0) (data.getD (8 * k + 3) 0)
+      (data.getD (8 * k + 4) 0) (data.getD (8 * k + 5) 0) (data.getD (8 * k + 6) 0) (data.getD (8 * k + 7) 0)) := by
+  unfold blocksH8; rw [blocksG8]
+
+theorem step64_lt (h d0 d1 d2 d3 d4 d5 d6 d7 : Nat) : Murmur.step64 h d0 d1 d2 d3 d4 d5 d6 d7 < 18446744073709551616 := by
+  unfold Murmur.step64 Murmur.mul64
+  exact Nat.mod_lt _ (by decide)
+
+theorem blocksG8_lt (data : Bytes) : ∀ (n k h : Nat), h < 18446744073709551616 →
+    blocksG8 Murmur.step64 data k n h < 18446744073709551616 := by
+  intro n
+  induction n with
+  | zero => intro k h hh; rw [blocksG8]; exact hh
+  | succ n ih => intro k h hh; rw [blocksG8]; exact ih _ _ (step64_lt _ _ _ _ _ _ _ _ _)
+
+theorem murmur64_loop_bridge (body : List Stmt) (data : Bytes) (hw : WFB data)
+    (hbody : ∀ ρ, runEnv (dataArrs data) ρ body 4 = runEnv (dataArrs data) ρ GoModel.loop_murmurHashLong.body 4)
+    (hframe : ∀ ρ x, x = 5 ∨ x = 6 ∨ x = 1 → runEnv (dataArrs data) ρ body x = ρ x) :
+    ∀ (n k : Nat) (ρ : Env) (h : Nat), ρ 4 = (h : Int) → ρ 5 = ((Murmur.m64 : Nat) : Int) → ρ 6 = 47 →
+      h < 18446744073709551616 → 8 * (k + n) + 7 < 4611686018427387904 →
+      forLoop (dataArrs data) body 3 n k ρ 4 = ((blocksH8 data k n h : Nat) : Int)
+      ∧ forLoop (dataArrs data) body 3 n k ρ 5 = ((Murmur.m64 : Nat) : Int)
+      ∧ forLoop (dataArrs data) body 3 n k ρ 6 = 47
+      ∧ forLoop (dataArrs data) body 3 n k ρ 1 = ρ 1 := by
+  intro n
+  induction n with
+  | zero => intro k ρ h h4 h5 h6 hh hk; exact ⟨h4, h5, h6, rfl⟩
+  | succ n ih =>
+    intro k ρ h h4 h5 h6 hh hk
+    have u4 : upd ρ 3 (k : Int) 4 = (h : Int) := by simp only [upd]; exact h4
+    have u5 : upd ρ 3 (k : Int) 5 = ((Murmur.m64 : Nat) : Int) := by simp only [upd]; exact h5
+    have u6 : upd ρ 3 (k : Int) 6 = 47 := by simp only [upd]; exact h6
+    have u3 : upd ρ 3 (k : Int) 3 = (k : Int) := by simp only [upd, if_true]
+    have b := murmur64_body_bridge data hw (upd ρ 3 (k : Int)) k h u3 u4 u5 u6 hh (by omega)
+    have r := ih (k + 1) (runEnv (dataArrs data) (upd ρ 3 (k : Int)) body)
+      (Murmur.step64 h (data.getD (8 * k) 0) (data.getD (8 * k + 1) 0) (data.getD (8 * k + 2) 0) (data.getD (8 * k + 3) 0)
+        (data.getD (8 * k + 4) 0) (data.getD (8 * k + 5) 0) (data.getD (8 * k + 6) 0) (data.getD (8 * k + 7) 0))
+      (by rw [hbody]; exact b) (by rw [hframe _ 5 (Or.inl rfl)]; exact u5)
+      (by rw [hframe _ 6 (Or.inr (Or.inl rfl))]; exact u6) (step64_lt _ _ _ _ _ _ _ _ _) (by omega)
+    rw [forLoop, blocksH8_succ]
+    refine ⟨r.1, r.2.1, r.2.2.1, ?_⟩
+    rw [r.2.2.2, hframe _ 1 (Or.inr (Or.inr rfl))]; simp only [upd]; rfl
+
+theorem drop8 (data : Bytes) (k : Nat) (h : 8 * k + 7 < data.length) :
+    data.drop (8 * k) = data.getD (8 * k) 0 :: data.getD (8 * k + 1) 0 :: data.getD (8 * k + 2) 0
+      :: data.getD (8 * k + 3) 0 :: data.getD (8 * k + 4) 0 :: data.getD (8 * k + 5) 0 :: data.getD (8 * k + 6) 0
+      :: data.getD (8 * k + 7) 0 :: data.drop (8 * (k + 1)) := by
+  rw [drop_cons_getD data (8 * k) (by omega), drop_cons_getD data (8 * k + 1) (by omega),
+      drop_cons_getD data (8 * k + 2) (by omega), drop_cons_getD data (8 * k + 3) (by omega),
+      drop_cons_getD data (8 * k + 4) (by omega), drop_cons_getD data (8 * k + 5) (by omega),
+      drop_cons_getD data (8 * k + 6) (by omega), drop_cons_getD data (8 * k + 7) (by omega)]
+  rfl
+
+theorem walk8_blocksH8 (data : Bytes) : ∀ (n k h : Nat), 8 * (k + n) ≤ data.length → data.length < 8 * (k + n) + 8 →
+    Murmur.walk8 Murmur.step64 (data.drop (8 * k)) h = (blocksH8 data k n h, data.drop (8 * (k + n))) := by
+  intro n
+  induction n with
+  | zero =>
+    intro k h h1 h2
+    rw [Murmur.walk8_short _ _ _ (by rw [List.length_drop]; omega)]
+    rfl
+  | succ n ih =>
+    intro k h h1 h2
+    rw [drop8 data k (by omega), Murmur.walk8_cons, blocksH8_succ, ih (k + 1) _ (by omega) (by omega)]
+    have : k + 1 + n = k + (n + 1) := by omega
+    rw [this]
 
 end GoBridge
